@@ -1,6 +1,11 @@
 package happs
 
 import (
+	"crypto/sha256"
+	"fmt"
+	"strings"
+
+	tmbytes "github.com/cometbft/cometbft/libs/bytes"
 	"github.com/cosmos/cosmos-sdk/codec"
 	codectypes "github.com/cosmos/cosmos-sdk/codec/types"
 	sdk "github.com/cosmos/cosmos-sdk/types"
@@ -39,9 +44,39 @@ func (c *nftChain) give(class, id, owner string) {
 
 // voucherFor registers the class trace of path on the chain (as a delivered packet would) and returns the voucher class.
 func (c *nftChain) voucherFor(path string) string {
-	tr := types.ParseClassTrace(path)
-	c.k.SetClassTrace(c.ctx, tr)
-	return tr.IBCClass()
+	c.k.SetClassTrace(c.ctx, refTrace(path))
+	return refVoucher(path)
+}
+
+// refTrace / refVoucher: the reference reading of a class path "nft/<chain>/.../<class id>", written
+// here independently of types.ParseClassTrace: the voucher class is tibc-<SHA-256 of the whole path>,
+// so two paths share a voucher class only if they are the same string.
+func refTrace(full string) types.ClassTrace {
+	i := strings.LastIndex(full, "/")
+	if i < 0 {
+		return types.ClassTrace{BaseClass: full}
+	}
+	return types.ClassTrace{Path: full[:i], BaseClass: full[i+1:]}
+}
+
+func refVoucher(full string) string {
+	h := sha256.Sum256([]byte(full))
+	return fmt.Sprintf("%s-%s", "tibc", tmbytes.HexBytes(h[:]))
+}
+
+// baseSlash: the class id drawn by baseClass contains the path delimiter '/' (irismod accepts
+// [a-z][a-zA-Z0-9/]{2,100}); the assertions of such runs carry a region suffix.
+var baseSlash bool
+
+func region(voucher bool) {
+	if !baseSlash {
+		return
+	}
+	if voucher {
+		vp.Region(" [voucher of a class id containing '/']")
+	} else {
+		vp.Region(" [native class id containing '/']")
+	}
 }
 
 func who(n string) string {
@@ -53,8 +88,16 @@ func who(n string) string {
 
 // baseClass: a native class name: 1..2 letters, or a name that merely starts with the path marker "nft".
 func baseClass(n string) string {
-	if vp.Bool(n + ".startsWithMarker") {
+	baseSlash = false
+	switch vp.Choice(n+".kind", 4) {
+	case 1:
 		return "nft" + vp.String(n+".rest", 0, 1, "dx")
+	case 2:
+		baseSlash = true
+		return vp.String(n+".head", 1, 1, "dn") + "/"
+	case 3:
+		baseSlash = true
+		return vp.String(n+".head", 1, 1, "dn") + "/" + vp.String(n+".tail", 1, 1, "dn")
 	}
 	return vp.String(n, 1, 2, "dn")
 }
@@ -87,6 +130,10 @@ func H_C04_send() {
 		fullPath = "nft/" + origin + "/" + mid + "/" + self + "/" + base
 		class, cameFrom = c.voucherFor(fullPath), mid
 	}
+	// vouchers of class ids containing '/': the path "nft/<chains>/<class id>" cannot be read back
+	// unambiguously (known finding D13b, carried by H_C06_roundtrip); single steps are not judged here
+	vp.Assume(!(baseSlash && shape != 0))
+	region(false)
 	holder := who("holder")
 	present := vp.Bool("token.present")
 	if present {
@@ -171,6 +218,8 @@ func H_C04_recv() {
 	default:
 		class = "nft/" + self + "/" + src + "/" + base
 	}
+	vp.Assume(!(baseSlash && shape != 0)) // see H_C04_send
+	region(false)
 	receiver := bob
 	if vp.Bool("receiver.invalid") {
 		receiver = "not-an-address"
@@ -193,7 +242,14 @@ func H_C04_recv() {
 	live0 := c.nft.live()
 	packet := packettypes.Packet{Sequence: 1, Port: "NFT", SourceChain: src, DestinationChain: self, Data: recvData(class, id, alice, receiver, away)}
 
-	_, ack, err := c.am.OnRecvPacket(c.ctx, packet)
+	var ack []byte
+	var err error
+	if vp.Panics(func() { _, ack, err = c.am.OnRecvPacket(c.ctx, packet) }) {
+		// BaseApp recovers a panicking handler: the message fails and its state branch is dropped
+		// (happens for data no honest sender produces: "moving back" with a class id that is not a path)
+		vp.Assert(!away && shape == 0, "C04.3 only a packet that claims to move back without carrying a class path can crash the callback")
+		return
+	}
 
 	vp.Assert(err == nil && len(ack) > 0, "C03.4 the application always answers with a non-empty acknowledgement")
 	if err != nil {
@@ -211,10 +267,11 @@ func H_C04_recv() {
 			if shape != 0 {
 				newPath = "nft/" + class[4:len(class)-len(base)] + self + "/" + base
 			}
-			v := types.ParseClassTrace(newPath).IBCClass()
+			v := refVoucher(newPath)
 			vp.Assert(c.nft.ownerOf(v, id) == bob, "C04.1 moving away: a voucher of class tibc-hash(path + this hop) appears, owned by the receiver")
 			vp.Assert(c.nft.live() == live0+1, "C04.1 exactly one voucher comes into existence per delivered packet")
-			tr, found := c.k.GetClassTrace(c.ctx, types.ParseClassTrace(newPath).Hash())
+			nh := sha256.Sum256([]byte(newPath))
+			tr, found := c.k.GetClassTrace(c.ctx, nh[:])
 			vp.Assert(found && tr.GetFullClassPath() == newPath, "C04.2 the voucher's class trace is recorded (so it can be sent on or back)")
 		} else {
 			vp.Assert(shape != 0, "C04.3 a packet claiming to move back must carry a class path")
@@ -238,6 +295,7 @@ func H_C06_refund() {
 	if voucher {
 		class = c.voucherFor("nft/" + origin + "/" + self + "/" + base)
 	}
+	region(voucher)
 	c.give(class, id, alice)
 	dest := cname("dest")
 	vp.Assume(dest != self)
@@ -283,18 +341,19 @@ func H_C06_roundtrip() {
 	a, b, c := newNftChain(nA), newNftChain(nB), newNftChain(nC)
 	base := baseClass("base")
 	id := "t1"
+	region(false)
 	a.give(base, id, alice)
 	hops := 1 + vp.Choice("extra.hop", 2)
 	vp.Assume(a.k.SendNftTransfer(a.ctx, base, id, addr(alice), bob, nB, "", "") == nil)
 	ack := deliver(b, a.pk.sent[0])
 	vp.Assume(ack != nil && !ackIsError(ack))
-	vB := types.ParseClassTrace("nft/" + nA + "/" + nB + "/" + base).IBCClass()
+	vB := refVoucher("nft/" + nA + "/" + nB + "/" + base)
 	vp.Assert(b.nft.ownerOf(vB, id) == bob && a.nft.ownerOf(base, id) == escrow, "C04.1 after one hop: original in escrow on the origin, voucher with the receiver")
 	if hops == 2 {
 		vp.Assume(b.k.SendNftTransfer(b.ctx, vB, id, addr(bob), alice, nC, "", "") == nil)
 		ack = deliver(c, b.pk.sent[0])
 		vp.Assume(ack != nil && !ackIsError(ack))
-		vC := types.ParseClassTrace("nft/" + nA + "/" + nB + "/" + nC + "/" + base).IBCClass()
+		vC := refVoucher("nft/" + nA + "/" + nB + "/" + nC + "/" + base)
 		vp.Assert(c.nft.ownerOf(vC, id) == alice && b.nft.ownerOf(vB, id) == escrow, "C04.1 after two hops: first voucher in escrow on the middle chain, second voucher with the receiver")
 		// and back C -> B
 		err := c.k.SendNftTransfer(c.ctx, vC, id, addr(alice), bob, nB, "", "")
@@ -328,11 +387,12 @@ func H_C04_forged_return() {
 	base := baseClass("base")
 	id := "t1"
 	// genuine history: alice@A sent base/id to bob@B
+	region(false)
 	a.give(base, id, alice)
 	vp.Assume(a.k.SendNftTransfer(a.ctx, base, id, addr(alice), bob, nB, "", "") == nil)
 	ack := deliver(b, a.pk.sent[0])
 	vp.Assume(ack != nil && !ackIsError(ack))
-	vB := types.ParseClassTrace("nft/" + nA + "/" + nB + "/" + base).IBCClass()
+	vB := refVoucher("nft/" + nA + "/" + nB + "/" + base)
 	// mallory (alice's key on B) creates a native class on B; irismod accepts names matching [a-z][a-zA-Z0-9/]{2,100}
 	forged := "nft/" + nA + "/" + nB + "/" + base
 	if vp.Bool("forged.plainName") {
